@@ -649,7 +649,11 @@ func (g *vgen) cfgField(f *field, pre reflect.Value, stats *cfgStats) *cval {
 	case kSlicePrim:
 		stats.mentioned++
 		c := &cval{form: "list"}
-		for i, n := 0, 1+r.Intn(4); i < n; i++ {
+		n := 1 + r.Intn(4)
+		if r.Intn(6) == 0 {
+			n = 0 // the empty list `key: []`: a setting like any other list
+		}
+		for i := 0; i < n; i++ {
 			c.list = append(c.list, g.setting(f.prim, hint{}))
 		}
 		return c
@@ -684,7 +688,11 @@ func (g *vgen) cfgField(f *field, pre reflect.Value, stats *cfgStats) *cval {
 		stats.mentioned++
 		c := &cval{form: "list"}
 		var dummy cfgStats
-		for i, n := 0, 1+r.Intn(3); i < n; i++ {
+		n := 1 + r.Intn(3)
+		if r.Intn(6) == 0 {
+			n = 0 // the empty list
+		}
+		for i := 0; i < n; i++ {
 			var e reflect.Value
 			if pre.IsValid() && i < pre.Len() {
 				e = deref(pre.Index(i))
@@ -704,7 +712,11 @@ func (g *vgen) cfgField(f *field, pre reflect.Value, stats *cfgStats) *cval {
 		stats.mentioned++
 		c := &cval{form: "keys", keys: map[string]*cval{}}
 		var dummy cfgStats
-		for i, n := 0, 1+r.Intn(3); i < n; i++ {
+		n := 1 + r.Intn(3)
+		if r.Intn(8) == 0 {
+			n = 0 // the empty object `key: {}`
+		}
+		for i := 0; i < n; i++ {
 			k := mapKeys[r.Intn(len(mapKeys))]
 			exists := pre.IsValid() && !pre.IsNil() && pre.MapIndex(reflect.ValueOf(k)).IsValid()
 			switch f.kind {
